@@ -73,7 +73,7 @@ def execute(sc) -> Result:
         res.history_key = "|".join(map(str, (
             truth.sgn(sc), bool(rel.get("continuous")), rel.get("freq_steps"),
             [(r["step"], r["mult"]) for r in rel["rows"]], [c["name"] for c in rel.get("extra", [])],
-            rel.get("header", True), bool(rel.get("use_lonlat")), sc["time"]["nsteps"]))) + "|" + abstract_history(run)
+            rel.get("header", True), bool(rel.get("use_lonlat")), sc["time"]["nsteps"]))) + "|" + abstract_history(run, sc)
         v, foreign = crash_violation(ID, run, ANCHORS)
         if v is not None:
             res.add(v)
